@@ -9,6 +9,9 @@ V = os.path.dirname(os.path.dirname(os.path.abspath(__file__)))
 S = os.path.join(V, "seeded")
 
 
+REGISTERED = "--registered" in sys.argv
+
+
 def one(name):
     d = os.path.join(S, name)
     pf = os.path.join(d, "patch.diff")
@@ -20,23 +23,30 @@ def one(name):
         if ap.returncode != 0:
             return {"seed": name, "property": meta.get("property"), "title": meta.get("title"), "applies": False, "fired": [], "analysis_errors": []}
         env = dict(os.environ, RXSA_REPO=tmp, RXSA_EVID_DIR=os.path.join(tmp, "evidence"))
-        out = subprocess.run([sys.executable, os.path.join(V, "tools", "run_all.py"), "quick"], capture_output=True, text=True, env=env).stdout
+        if REGISTERED:
+            out = subprocess.run([sys.executable, os.path.join(V, "tools", "run_all.py"), "quick"], capture_output=True, text=True, env=env).stdout
+        else:
+            # all 44 quick rules in one process over one parsed tree (same verdicts as the registered commands: cross-checked on
+            # every kept seed; `--registered` runs the registered commands instead, 30x slower)
+            out = subprocess.run([sys.executable, "-m", "sa.multi"], cwd=V, capture_output=True, text=True, env=env).stdout
     finally:
         shutil.rmtree(tmp, ignore_errors=True)
     fired, errors = [], []
     for l in out.splitlines():
-        if " rc=1 " in l:
+        if " rc=1 " in l and REGISTERED:
             pid = l.split()[0]
             rules = l.split("violations=")[1].split(" ", 1)[1].split("|")[0].strip()
             fired.append(f"{pid}:{rules}")
-        if " rc=2 " in l:
+        elif " rc=1" in l and not REGISTERED:
+            fired.append(f"{l.split()[0]}:{l.split()[2] if len(l.split()) > 2 else ''}")
+        if " rc=2" in l:
             errors.append(l.split()[0])
     return {"seed": name, "property": meta.get("property"), "title": meta.get("title"), "applies": True, "fired": fired, "analysis_errors": errors}
 
 
 def main():
     names = [n for n in sorted(os.listdir(S)) if os.path.isfile(os.path.join(S, n, "patch.diff")) and not n.startswith("_")]
-    with ThreadPoolExecutor(4) as ex:
+    with ThreadPoolExecutor(4 if REGISTERED else 12) as ex:
         rows = list(ex.map(one, names))
     json.dump(rows, open(os.path.join(S, "RESULTS.json"), "w"), indent=1)
     with open(os.path.join(S, "RESULTS.md"), "w") as fh:
